@@ -8,12 +8,5 @@ RULE = ("harness c19: compressed GLWE / GGSW / GGLWE / switching / automorphism 
 ASSUMPTIONS = ["release-mode (wrapping) integer semantics", "DFT-domain products exact inside the backend's magnitude domain (C07)"]
 TRUSTED = ["ChaCha8 (stream_of seed) and rand_distr::Normal are inputs of the model"]
 def classify(record):
-    """known class: compressed GGLWE->GGSW key (19002, kind ps[9] == 4): the drawn seeds are not stored"""
-    try:
-        code, ps = record.split("#")[:2]
-        p = [int(x, 16) for x in ps.split()]
-        if int(code) == 19002 and p[9] == 4:
-            return "gglwe_to_ggsw_key_compressed.seeds_not_stored"
-    except Exception:
-        pass
+    """no open class: `gglwe_to_ggsw_key_compressed.seeds_not_stored` was repaired by 3f87a93"""
     return None
